@@ -210,7 +210,10 @@ func (s *SamplerFactory) createSamplerIn(c any, keyPrefix string, downstream boo
 	s.Logger.Debug().WithField("dataset", keyPrefix).Logf("created implementation for sampler type %T", c)
 	// Update peer counts after creating a sampler
 	s.updatePeerCounts()
-	s.Metrics.Gauge("unique_dynsampler_count", float64(len(s.sharedDynsamplers)))
+	s.mutex.Lock()
+	dynsamplerCount := len(s.sharedDynsamplers)
+	s.mutex.Unlock()
+	s.Metrics.Gauge("unique_dynsampler_count", float64(dynsamplerCount))
 
 	return sampler
 }
